@@ -563,6 +563,7 @@ def run_spec(ctx, spec, quick, parts):
 def run(ctx, args):
     ctx.regen(["GenFilterFx.v"])
     ctx.build("Props/C08.vo")
+    ctx.build("Props/C08Nav.vo")      # insensitivity of the navigation observers (Conc/CNav model, tied by harness/props/c05.py)
     static_check(ctx)
     saved = list(nodes.default_filters)
     try:
